@@ -1,6 +1,6 @@
 (* Dispatch fragment for C03. *)
 From Coq Require Import NArith ZArith List String.
-From NGS Require Import Val Ints PioModel.
+From NGS Require Import Val Ints PioModel PioHandles.
 Import ListNotations.
 Open Scope string_scope.
 
@@ -43,6 +43,54 @@ Definition v_enc (k : enc_kind) : val :=
   | EncCSeg a b c => VL [VT "cseg"; VZ a; VZ b; VZ c]
   end.
 
+(* ---- several handles on one dataset (PioHandles) ----
+   info on the wire: ( id data_type_index num_channels|notint ( (scale encoding_index block|none) ... ) );
+   a chunk is a token; stored bytes remember the id of the info they were encoded under *)
+Record winfo := { wi_id : Z; wi_dt : Z; wi_nc : option Z; wi_sc : list (scale * Z * option triple) }.
+
+Definition get_winfo (v : val) : option winfo :=
+  match v with
+  | VL [VZ id; VZ dt; nc; VL scs] =>
+      let one (x : val) :=
+        match x with
+        | VL [sc; VZ enc; blk] =>
+            match get_scale sc with Some s => Some (s, enc, get_triple blk) | None => None end
+        | _ => None
+        end in
+      match all_some (map one scs) with
+      | Some l => Some {| wi_id := id; wi_dt := dt; wi_nc := match nc with VZ n => Some n | _ => None end;
+                          wi_sc := l |}
+      | None => None
+      end
+  | _ => None
+  end.
+
+Definition wi_scales (i : winfo) : list scale := map (fun x => fst (fst x)) (wi_sc i).
+Fixpoint wi_check_l (i : winfo) (l : list (scale * Z * option triple)) : outcome unit :=
+  match l with
+  | [] => Ok tt
+  | (_, enc, blk) :: r =>
+      bind (get_encoder true true true (wi_dt i) (wi_nc i) enc blk) (fun _ => wi_check_l i r)
+  end.
+Definition wi_check (i : winfo) : outcome unit := wi_check_l i (wi_sc i).
+Definition wi_encode (i : winfo) (_ : list N) (tok : Z) : outcome (Z * Z) := Ok (wi_id i, tok).
+Definition wi_decode (i : winfo) (_ : list N) (b : Z * Z) (_ : triple) : outcome Z :=
+  if Z.eqb (fst b) (wi_id i) then Ok (snd b) else FormatErr.
+
+Definition get_hop (infos : list winfo) (v : val) : option (hop winfo Z) :=
+  match v with
+  | VL [VT "new"; VZ n; ow] =>
+      match nth_error infos (Z.to_nat n), getB ow with
+      | Some i, Some ow => Some (HNew winfo Z i ow)
+      | _, _ => None end
+  | VL [VT "open"] => Some (HOpen winfo Z)
+  | VL [VT "w"; VZ h; VZ tok; VS k; c] =>
+      match get_coords c with Some c => Some (HWrite winfo Z (Z.to_nat h) tok k c) | None => None end
+  | VL [VT "r"; VZ h; VS k; c] =>
+      match get_coords c with Some c => Some (HRead winfo Z (Z.to_nat h) k c) | None => None end
+  | _ => None
+  end.
+
 Definition d_c03 (op : string) (a : val) : option val :=
   match op, a with
   | "validate", VL [sc; c] =>
@@ -62,5 +110,17 @@ Definition d_c03 (op : string) (a : val) : option val :=
           let '(st, outs) := run Z Z tok_encode tok_decode scs [] ops in
           Some (VL (map v_read outs))
       | _, _ => Some bad end
+  | "pio_handles", VL [VL infos; VL ops] =>
+      match all_some (map get_winfo infos) with
+      | Some infos =>
+          match all_some (map (get_hop infos) ops) with
+          | Some ops =>
+              let '(st, outs) := hrun winfo Z (Z * Z) wi_scales wi_check wi_encode wi_decode
+                                      (h_empty winfo (Z * Z)) ops in
+              Some (VL [VL (map v_read outs);
+                        match h_info st with Some i => VZ (wi_id i) | None => VT "none" end;
+                        VZ (Z.of_nat (List.length (h_handles st)))])
+          | None => Some bad end
+      | None => Some bad end
   | _, _ => None
   end.
